@@ -456,7 +456,7 @@ fn main() {
             let mut kinds = 0usize;
             for i in first..first + cases {
                 // one PRNG state per case, derived from (seed, case index): replayable in isolation
-                let mut rng = Rng::new(seed.wrapping_mul(1_000_003).wrapping_add(i as u64));
+                let mut rng = if prof.name.starts_with("exhaust") { Rng(i as u64) } else { Rng::new(seed.wrapping_mul(1_000_003).wrapping_add(i as u64)) };
                 let case = gen_case(&mut rng, &prof);
                 kinds += case.ops.len();
                 tr.run_case(i, &case, queries);
@@ -751,7 +751,7 @@ fn main() {
             let seed: u64 = arg(&args, "--seed").map_or(1, |s| s.parse().unwrap());
             let i: usize = arg(&args, "--index").map_or(0, |s| s.parse().unwrap());
             let prof = profile(arg(&args, "--profile").unwrap_or("general"));
-            let mut rng = Rng::new(seed.wrapping_mul(1_000_003).wrapping_add(i as u64));
+            let mut rng = if prof.name.starts_with("exhaust") { Rng(i as u64) } else { Rng::new(seed.wrapping_mul(1_000_003).wrapping_add(i as u64)) };
             let m = arg(&args, "--mode").unwrap_or("trace");
             let case = if m == "text" { text_case(&mut rng) } else { gen_case(&mut rng, &prof) };
             let mut w = out;
